@@ -13,19 +13,19 @@ open MemVerif.Model MemVerif.Gen
 
 /-- **C04 (accounting), collections, node and array operations.** -/
 theorem C04_coll_array_measure_monotone_partial (cfg : Cfg) (e : EnvS) (arr arrLen : Nat) (hf : cfg.fence ≤ 2 ^ 32) (g : GCollA)
-    (k : Nat) (ops : List COpA) (hI : CInv arr arrLen g.c g.live) (henv : BlocksOk (g.run cfg e k ops).1.c.arena.used)
-    (j : Nat) :
+    (k : Nat) (ops : List COpA) (hfit : ∀ op ∈ ops, op.Fits) (hI : CInv arr arrLen g.c g.live)
+    (henv : BlocksOk (g.run cfg e k ops).1.c.arena.used) (j : Nat) :
     g.c.measure g.live j ≤ (g.run cfg e k ops).1.c.measure (g.run cfg e k ops).1.live j :=
-  (GCollA.run_measure cfg e hf ops g k (C04Coll.allIntr_of_inv hI) hI henv j).2
+  (GCollA.run_measure cfg e hf ops g k hfit (C04Coll.allIntr_of_inv hI) hI henv j).2
 
 /-- **C04 (no capacity lost), collections, node and array operations.** If at the end of a history the caller holds
 nothing, every bucket's `capacity()` is at least its capacity at the start plus the number of its cells that were held. -/
 theorem C04_coll_array_no_capacity_lost_partial (cfg : Cfg) (e : EnvS) (arr arrLen : Nat) (hf : cfg.fence ≤ 2 ^ 32) (g : GCollA)
-    (k : Nat) (ops : List COpA) (hI : CInv arr arrLen g.c g.live) (henv : BlocksOk (g.run cfg e k ops).1.c.arena.used)
-    (hend : (g.run cfg e k ops).1.live = []) (j : Nat) :
+    (k : Nat) (ops : List COpA) (hfit : ∀ op ∈ ops, op.Fits) (hI : CInv arr arrLen g.c g.live)
+    (henv : BlocksOk (g.run cfg e k ops).1.c.arena.used) (hend : (g.run cfg e k ops).1.live = []) (j : Nat) :
     C04Coll.capacityAt g.c j + g.c.liveAt g.live j ≤ C04Coll.capacityAt (g.run cfg e k ops).1.c j := by
-  have hm := C04_coll_array_measure_monotone_partial cfg e arr arrLen hf g k ops hI henv j
-  have hI' := GCollA.run_inv cfg e hf ops g k hI henv
+  have hm := C04_coll_array_measure_monotone_partial cfg e arr arrLen hf g k ops hfit hI henv j
+  have hI' := GCollA.run_inv cfg e hf ops g k hfit hI henv
   rw [C04Coll.capacity_eq_cells hI, C04Coll.capacity_eq_cells hI']
   unfold Coll.measure at hm
   rw [hend] at hm
@@ -38,6 +38,22 @@ theorem C04_coll_array_release_exact (cfg : Cfg) {arr arrLen : Nat} {c : Coll} {
     (c.deallocateArray cfg a count s).st.measure (removeEntries live (arrEntries l.nodeSize a s (arrCells l.nodeSize count s))) j
       = c.measure live j :=
   Coll.deallocateArray_measure cfg h hl hsub j
+
+/-- **`reserve(size, capacity)` gains memory for its bucket** (the D34 repair): whenever it succeeds, the bucket of
+`size` has at least one free cell more than before, and no other bucket has fewer. -/
+theorem C04_coll_reserve_gains (cfg : Cfg) {arr arrLen : Nat} {c : Coll} {live : List (Nat × Nat)} (h : CInv arr arrLen c live)
+    (size capacity : Nat) (env : List (Option Nat)) (hd : (c.reserveOp cfg size capacity env).out = .done) :
+    c.cellsAt (c.listIndex size) + 1 ≤ (c.reserveOp cfg size capacity env).st.cellsAt (c.listIndex size) ∧
+    ∀ j, c.cellsAt j ≤ (c.reserveOp cfg size capacity env).st.cellsAt j := by
+  have hi := C04Coll.allIntr_of_inv h
+  refine ⟨?_, (Coll.reserveOp_grow cfg c size capacity env).cells hi⟩
+  unfold Coll.reserveOp at hd ⊢
+  simp only at hd ⊢
+  cases hl : c.lists[c.listIndex size]? with
+  | none => simp [hl] at hd
+  | some l =>
+    simp only [hl] at hd ⊢
+    exact Coll.refill_gains cfg c hi _ _ env hd
 
 /-- satisfiable and attained (a test, labelled as a test): the history of `C01CollArr.demo` followed by the release of
 everything: afterwards nothing is held and every bucket's capacity equals its free cells -/
